@@ -15,8 +15,15 @@ Definition refuses (cl : option nat) (bl : option N) (writes : list bstr) : Prop
   (exists k, cl = Some k /\ (k < length writes)%nat) \/
   (exists k, bl = Some k /\ k < N.of_nat (length (concat_b writes))).
 
+(* where a refused render stopped: after exactly [cl] whole Write calls of the fault-free render,
+   or with the byte budget exactly filled *)
+Definition stopped_at (cl : option nat) (bl : option N) (ws ws0 : list bstr) : Prop :=
+  (cl = Some (length ws) /\ exists later, ws0 = ws ++ later) \/
+  bl = Some (N.of_nat (length (concat_b ws))).
+
 (* the render reports the failure: it returns the write error.  ([Crash e_index]
    is the panic of Registry.LineNumber inside errRecover when the position of
-   the failing node lies outside the recorded source -- defect I9, excluded by
-   C06's registry well-formedness; it is not a nil error either.) *)
+   the failing node lies outside the recorded source -- defect I9 and the message-part
+   positions of notes/applied/C12-msg-part-positions.diff, excluded by C06's registry
+   well-formedness; it is not a nil error either.) *)
 Definition surfaced (o : outcome unit) : Prop := o = Err e_write \/ o = Crash e_index.
